@@ -146,6 +146,17 @@ def emit_fn(item, ledger, global_rewrites, probe=False):
     for n in loops:
         if n >= len(it["loops"]):
             raise Undecided("lost anchor: loop #%d of %s not found" % (n, where))
+    # auxiliary functions cut out of the item's own text (e.g. the body of a closure passed to a std adapter that
+    # Verus cannot type): the captured expression is verified as a function of its own, next to the item
+    orig = src[s0:e0].decode()
+    for aux in item.get("aux", []):
+        am = re.search(aux["re"], orig, re.M | re.S)
+        if not am:
+            raise Undecided("lost anchor: auxiliary pattern `%s` not found in %s" % (aux["re"], where))
+        atxt = am.expand(aux["template"])
+        atxt = _apply_rewrites(atxt, aux.get("rewrites", []) + global_rewrites, ledger, where + "[aux]")
+        ledger.add(where=where, rule="R7", before=am.group(0)[:200], after=atxt[:200], why=aux.get("why", "closure body verified as a function"))
+        txt = txt + "\n" + atxt
     attrs = "".join(a + "\n" for a in item.get("attrs", []))
     head = None if item.get("free") else it.get("impl_head")
     if head and it.get("impl_trait") and not item.get("keep_trait"):
